@@ -380,6 +380,7 @@ func (wk *worker) runPath(fn *ssa.Function, name string, pre prefix, b bounds, h
 	in.frozenOn = false
 	in.writes = nil
 	in.permuteMaps = false
+	in.permuteMode = 0
 	in.depth = 0
 	in.top = nil
 	in.bufSeq = 0
